@@ -162,6 +162,13 @@ def ellipsoid():
                   note='ellipsoid: converged => the stopping test was evaluated in the returning iteration')
 
 
+def state_ctor():
+    """solver_state_t{function, x0}: the initial status is max_iters (the value-initialised member `m_status{}` is the FIRST enumerator,
+    read from /repo's AST): rqb / fpba / ellipsoid set a status only through solver_t::done, so an exhausted budget is reported as
+    max_iters and `converged` only when done() decided it (shared target of specs/solver, also run by C01 / C02)"""
+    return [t for t in common.targets(['NV_C03']) if t.name == 'state_ctor'][0]
+
+
 def targets(defines=()):
     done = common.fn_done
     return [Target('csearch_search', [search()], H, defines=defines),
